@@ -96,3 +96,21 @@ def nmarks : Pat → Nat
   | _ :: ts => nmarks ts
 
 end Moclo
+
+namespace Moclo
+
+/-- every way the pattern fits the text (not only the one the backtracker reports): group boundaries and end
+position of each fit — the executable counterpart of `Run`, used to *check* the "exactly one fit" hypotheses -/
+def allRuns : Pat → Word → Nat → List (List Nat × Nat)
+  | [], _, p => [([], p)]
+  | .cls c :: ts, x :: xs, p => if clsMatch c x then allRuns ts xs (p+1) else []
+  | .cls _ :: _, [], _ => []
+  | .gopen :: ts, xs, p => (allRuns ts xs p).map (fun r => (p :: r.1, r.2))
+  | .gclose :: ts, xs, p => (allRuns ts xs p).map (fun r => (p :: r.1, r.2))
+  | .star c _ :: ts, xs, p => (List.range (runLen c xs + 1)).flatMap (fun j => allRuns ts (xs.drop j) (p + j))
+
+/-- all fits of a pattern on a circular record: start below the length, one-turn window -/
+def allFits (p : Pat) (w : Word) : List (Nat × List Nat × Nat) :=
+  (List.range w.length).flatMap (fun i => (allRuns p (window w i) 0).map (fun r => (i, r.1, r.2)))
+
+end Moclo
